@@ -531,7 +531,7 @@ def run(tier, seed):
                 extra = ""
                 if kind_m == "probs" and got.shape == np.shape(exp):
                     extra = ":unnormalised" if abs(float(np.sum(got)) - 1.0) > 1e-6 else ":normalised"
-                V.add(f"{tag}{idle}:mismatch{extra}", f"{m}: got {np.round(got, 6).tolist()} expected {np.round(exp, 6).tolist()} on {describe(c)} [{ctx}]",
+                V.add(f"{tag}:mismatch{extra}", f"{m}: got {np.round(got, 6).tolist()} expected {np.round(exp, 6).tolist()} on {describe(c)} [{ctx}]",
                       {"ops": c["ops"], "labels": c["labels"], "measurement": list(m), "device_wires": c["devwires"]})
         if good_case and len(c["ops"]) >= 2:
             nontriv.add(json.dumps(c["ops"], sort_keys=True))
